@@ -34,12 +34,13 @@ VARIABLES prog, o, lib,
           entered,   \* outcome of __aenter__: "value" | "raise" | "rt-noyield"
           gen,       \* what the generator answered in the exit step
           nresume,   \* how often the generator was resumed/thrown into/closed after entering
-          result     \* what leaves the `async with` statement
-vars == <<prog, o, lib, phase, entered, gen, nresume, result>>
+          result,    \* what leaves the `async with` statement
+          second     \* what a second `async with` on the same manager OBJECT gives: "-" (not tried) | "refused"
+vars == <<prog, o, lib, phase, entered, gen, nresume, result, second>>
 
 Init == /\ prog \in [pre : Pres, h : Handlers, post : Posts]
         /\ o \in Outcomes /\ lib \in Libs
-        /\ phase = "enter" /\ entered = "-" /\ gen = "-" /\ nresume = 0 /\ result = "-"
+        /\ phase = "enter" /\ entered = "-" /\ gen = "-" /\ nresume = 0 /\ result = "-" /\ second = "-"
 
 IsStop(x) == x \in {"StopIteration", "StopAsyncIteration"}
 
@@ -52,9 +53,9 @@ Enter ==
   /\ IF prog.pre = "yield" THEN phase' = "block" /\ result' = result
      ELSE /\ phase' = "done"
           /\ result' = CASE prog.pre = "raise" -> "new:PreError" [] prog.pre = "raisert" -> "new:PreRuntimeError" [] OTHER -> "rt-noyield"
-  /\ UNCHANGED <<prog, o, lib, gen, nresume>>
+  /\ UNCHANGED <<prog, o, lib, gen, nresume, second>>
 
-Block == /\ phase = "block" /\ phase' = "exit" /\ UNCHANGED <<prog, o, lib, entered, gen, nresume, result>>
+Block == /\ phase = "block" /\ phase' = "exit" /\ UNCHANGED <<prog, o, lib, entered, gen, nresume, result, second>>
 
 \* what follows the yield once the generator runs on normally
 \* ("raisesai": the code after the yield lets a StopAsyncIteration escape -- converted like any other)
@@ -85,7 +86,7 @@ OnThrow ==
 Exit ==
   /\ phase = "exit" /\ phase' = "classify" /\ nresume' = nresume + 1
   /\ gen' = IF o = "normal" THEN AfterYield ELSE OnThrow
-  /\ UNCHANGED <<prog, o, lib, entered, result>>
+  /\ UNCHANGED <<prog, o, lib, entered, result, second>>
 
 \* the decision of __aexit__  [contextlib.py:126-168]; labels of `result`:
 \*   ok | suppressed | same | rt-nostop | rt-ignored (ignored GeneratorExit) |
@@ -108,9 +109,20 @@ Classify ==
               [] gen = "yields" -> "rt-nostop"
               [] gen = "conv-of-new" -> "rt-conv"
               [] OTHER -> gen                               \* a new exception replaces the block's
-  /\ UNCHANGED <<prog, o, lib, entered, gen, nresume>>
+  /\ UNCHANGED <<prog, o, lib, entered, gen, nresume, second>>
 
-Next == Enter \/ Block \/ Exit \/ Classify
+\* A generator-based manager is good for ONE with-statement: the object holds one generator, which has been used
+\* up -- however the first use went.  Entering it again is refused (both libraries raise; which exception is their
+\* own business), the block does not run and the generator function is not called a second time.
+\* (A generator that did NOT stop -- it answered the exit step with another yield -- is still alive; what a second use does
+\*  with it is outside anything C13 says: contextlib closes such a generator, asyncstdlib leaves it.  Not modelled.)
+UsedUp == entered # "value" \/ gen # "yields"
+Reenter ==
+  /\ phase = "done" /\ second = "-" /\ UsedUp
+  /\ second' = "refused"
+  /\ UNCHANGED <<prog, o, lib, phase, entered, gen, nresume, result>>
+
+Next == Enter \/ Block \/ Exit \/ Classify \/ Reenter
 Spec == Init /\ [][Next]_vars
 
 ---------------------------------------------------------------------------
@@ -121,7 +133,10 @@ ResumedOnce == phase = "done" => nresume = (IF entered = "value" THEN 1 ELSE 0)
 NotMisattributed ==
   (phase = "done" /\ entered = "value" /\ o # "normal" /\ prog.h \in {"none", "finally", "reraise"}) => result = "same"
 
-Emit == (phase = "done" /\ OutFile # "") =>
+\* the second use never drives the generator: the count of the first use stands
+SingleUse == second = "refused" => nresume = (IF entered = "value" THEN 1 ELSE 0)
+
+Emit == (phase = "done" /\ (second = "refused" \/ ~UsedUp) /\ OutFile # "") =>
    CSVWrite("%1$s", <<ToJson([prog |-> prog, o |-> o, lib |-> lib, entered |-> entered, gen |-> gen,
-                              nresume |-> nresume, result |-> result])>>, OutFile)
+                              nresume |-> nresume, result |-> result, second |-> second])>>, OutFile)
 =============================================================================
